@@ -14,6 +14,10 @@ const RACE_DELAY: Duration = Duration::from_millis(200);
 /// against each other and the first to connect successfully wins the race.
 pub fn connect(host: &Host<&str>, port: u16, timeout: Duration, deadline: Option<Instant>) -> io::Result<TcpStream> {
     let addrs: Vec<_> = match *host {
+        #[cfg(feature = "verif-hooks")]
+        Host::Domain(domain) if crate::verif::resolve_override(domain, port).is_some() => {
+            crate::verif::resolve_override(domain, port).unwrap()
+        }
         Host::Domain(domain) => (domain, port).to_socket_addrs()?.collect(),
         Host::Ipv4(ip) => return TcpStream::connect_timeout(&(IpAddr::V4(ip), port).into(), timeout),
         Host::Ipv6(ip) => return TcpStream::connect_timeout(&(IpAddr::V6(ip), port).into(), timeout),
@@ -58,9 +62,15 @@ pub fn connect(host: &Host<&str>, port: u16, timeout: Duration, deadline: Option
     // connection attempt is successful.
     for &addr in sorted {
         let tx = tx.clone();
+        #[cfg(feature = "verif-hooks")]
+        let verif_ctx = crate::verif::ctx();
+        #[cfg(feature = "verif-hooks")]
+        verif_ctx.point_addr("he.spawn", addr);
 
         thread::spawn(move || {
             debug!("trying to connect to {}", addr);
+            #[cfg(feature = "verif-hooks")]
+            verif_ctx.point_addr("he.attempt", addr);
 
             let res = match deadline.map(|deadline| deadline.checked_duration_since(Instant::now())) {
                 None => TcpStream::connect_timeout(&addr, timeout),
@@ -68,6 +78,8 @@ pub fn connect(host: &Host<&str>, port: u16, timeout: Duration, deadline: Option
                 Some(None) => Err(io::ErrorKind::TimedOut.into()),
             };
 
+            #[cfg(feature = "verif-hooks")]
+            verif_ctx.point_addr(if res.is_ok() { "he.ok" } else { "he.err" }, addr);
             let _ = tx.send((addr, res));
         });
 
